@@ -31,14 +31,23 @@ HistFrom(r, U, B, i) ==
     ELSE LET v == StepVerdict(r, U, B, r.steps[i])
          IN IF v # "ok" THEN <<v, i>> ELSE HistFrom(r, U, B, i + 1)
 
+(* What a loader can see.  With both loader objects: both sets.  With one loader object the I-layer says the  *)
+(* other set is invisible (FIND_FIRST with directories ignores the package; no directories, no user set);     *)
+(* the statement does not say which sets a search policy consults, so P also accepts an execution that is    *)
+(* right for BOTH sets being visible -- consistently for the whole history -- and reports it as drift.         *)
 HistVerdict(r) ==
-    LET n == Len(r.bases)
-        U == IF r.fs THEN Range(r.user) ELSE {}
-        B == IF r.pkg THEN Range(r.builtin) ELSE {}
-    IN IF ~(Range(r.user) \cup Range(r.builtin) \subseteq 1..n) \/ ~(r.anyc \in 0..n)
+    LET n  == Len(r.bases)
+        Ud == Range(r.user)
+        Bd == Range(r.builtin)
+        U1 == IF r.fs THEN Ud ELSE {}
+        B1 == IF r.pkg THEN Bd ELSE {}
+        v1 == HistFrom(r, U1, B1, 1)
+    IN IF ~(Ud \cup Bd \subseteq 1..n) \/ ~(r.anyc \in 0..n)
           \/ (\E i \in DOMAIN r.steps : ~(r.steps[i].c \in 1..n /\ r.steps[i].got \in 0..n /\ r.steps[i].cold \in 0..n))
        THEN <<"harness.shape", 0>>
-       ELSE HistFrom(r, U, B, 1)
+       ELSE IF v1[1] = "ok" THEN v1
+       ELSE IF (r.fs # r.pkg) /\ HistFrom(r, Ud, Bd, 1)[1] = "ok" THEN <<"drift.visibility", v1[2]>>
+       ELSE v1
 
 InstOne(r, K) ==
     IF r.res[K] = 2 \/ r.resa[K] = 2 THEN "env.test_exists"
